@@ -20,6 +20,9 @@
 #ifndef VMAX
 #define VMAX 1000
 #endif
+#ifndef RD2_FULL  // two-rank-dependency family: all ordered pairs of pairs (small NNODES) or only chains a2 -> a1 -> b1
+#define RD2_FULL (NNODES <= 4)
+#endif
 
 namespace c01 {
 using namespace hk;
@@ -242,6 +245,7 @@ inline void choose_extra(Prog &p, int nextras, bool reorder_only) {
             for (int r = 0; r < k; r++) {
                 int a = verif_choice("rd_node", n), b = verif_choice("rd_on", n);
                 if (r == 1) verif_assume(a != p.rd[0][0] || b != p.rd[0][1]);
+                if (r == 1 && !RD2_FULL) verif_assume(b == p.rd[0][0]);
                 if (reorder_only) verif_assume(a < b);
                 add_rd(p, a, b);
             }
